@@ -1477,11 +1477,12 @@ fn main() {
         },
     ];
     if !quick {
-        // one segment deeper than the stated bound, run last under its own wall cap: if the cap is hit
-        // the legs above are still complete and this one says how far it got
+        // one segment deeper than the stated bound (without the literal "b", which is symmetric to
+        // "a"), run last under its own wall cap: if the cap is hit the legs above are still complete
+        // and this one says how far it got
         spaces.push(Space {
             name: "deep",
-            segs: vec![lit("a"), lit("b"), par("x"), par("y"), lit("a%20b"), lit("é")],
+            segs: vec![lit("a"), par("x"), par("y"), lit("a%20b"), lit("é")],
             max_len: 5,
             schemes: vec![(None, 5), (Some("swim"), 5)],
             extras: vec![],
